@@ -3,6 +3,7 @@ package main
 
 import (
 	"fmt"
+	"math"
 	"math/rand"
 	"os"
 	"sort"
@@ -180,6 +181,207 @@ func convCase(k int, r int64, v int) *wire.Case {
 	return c
 }
 
+func specPack(k int, r int64, v int) int64 {
+	switch {
+	case k == 0:
+		r, v = 0, 0
+	case !isElem(k):
+		v = 0
+	}
+	return kcode[k]<<56 + r<<16 + int64(v)
+}
+
+func showTriples(ts []triple) []interface{} {
+	var in []interface{}
+	for _, t := range ts {
+		in = append(in, []interface{}{string(kinds[t.k]), t.r, t.v})
+	}
+	return in
+}
+
+func putTriples(c *wire.Case, ts []triple) {
+	c.Len(len(ts))
+	for _, t := range ts {
+		c.Int(int64(t.k)).Int(t.r).Int(int64(t.v))
+	}
+}
+
+// countsCase: FeatureIDs.Counts / ElementIDs.Counts on ids of any of the seven kinds.
+func countsCase(which int, ts []triple) *wire.Case {
+	c := &wire.Case{Class: fmt.Sprintf("counts%d", which)}
+	c.Int(5).Int(int64(which))
+	putTriples(c, ts)
+	var n, w, r int
+	if which == 0 {
+		ids := make(osm.FeatureIDs, len(ts))
+		for i, t := range ts {
+			ids[i] = osm.FeatureID(objectID(t.k, t.r, t.v))
+		}
+		n, w, r = ids.Counts()
+	} else {
+		ids := make(osm.ElementIDs, len(ts))
+		for i, t := range ts {
+			ids[i] = osm.ElementID(objectID(t.k, t.r, t.v))
+		}
+		n, w, r = ids.Counts()
+	}
+	c.Int(int64(n)).Int(int64(w)).Int(int64(r))
+	var en, ew, er int
+	for _, t := range ts {
+		switch t.k {
+		case 1:
+			en++
+		case 2:
+			ew++
+		case 3:
+			er++
+		}
+	}
+	if n != en || w != ew || r != er {
+		c.OracleFail = fmt.Sprintf("Counts() = (%d,%d,%d), the list holds (%d,%d,%d) node/way/relation ids", n, w, r, en, ew, er)
+	}
+	c.Desc = map[string]interface{}{"call": []string{"FeatureIDs.Counts", "ElementIDs.Counts"}[which], "ids": showTriples(ts), "observed": []int{n, w, r}}
+	return c
+}
+
+func object(t triple) osm.Object {
+	switch t.k {
+	case 0:
+		return &osm.Bounds{}
+	case 1:
+		return &osm.Node{ID: osm.NodeID(t.r), Version: t.v}
+	case 2:
+		return &osm.Way{ID: osm.WayID(t.r), Version: t.v}
+	case 3:
+		return &osm.Relation{ID: osm.RelationID(t.r), Version: t.v}
+	case 4:
+		return &osm.Changeset{ID: osm.ChangesetID(t.r)}
+	case 5:
+		return &osm.Note{ID: osm.NoteID(t.r)}
+	}
+	return &osm.User{ID: osm.UserID(t.r)}
+}
+
+// listCase: Elements.ElementIDs / Elements.FeatureIDs / Objects.ObjectIDs.
+func listCase(which int, ts []triple) *wire.Case {
+	c := &wire.Case{Class: fmt.Sprintf("list%d", which)}
+	c.Int(6).Int(int64(which))
+	putTriples(c, ts)
+	var out []int64
+	isNil := false
+	switch which {
+	case 0, 1:
+		es := make(osm.Elements, len(ts))
+		for i, t := range ts {
+			es[i] = object(t).(osm.Element)
+		}
+		if which == 0 {
+			ids := es.ElementIDs()
+			isNil = ids == nil
+			for _, id := range ids {
+				out = append(out, int64(id))
+			}
+		} else {
+			ids := es.FeatureIDs()
+			isNil = ids == nil
+			for _, id := range ids {
+				out = append(out, int64(id))
+			}
+		}
+	default:
+		os := make(osm.Objects, len(ts))
+		for i, t := range ts {
+			os[i] = object(t)
+		}
+		ids := os.ObjectIDs()
+		isNil = ids == nil
+		for _, id := range ids {
+			out = append(out, int64(id))
+		}
+	}
+	c.Ints(out).Bool(isNil)
+	if len(out) != len(ts) {
+		c.OracleFail = "the id list has another length than the input"
+	} else {
+		for i, t := range ts {
+			want := specPack(t.k, t.r, t.v)
+			if which == 1 {
+				want = specPack(t.k, t.r, 0)
+			}
+			if out[i] != want {
+				c.OracleFail = fmt.Sprintf("id %d of the list is %d, want %d", i, out[i], want)
+				break
+			}
+		}
+	}
+	c.Desc = map[string]interface{}{"call": []string{"Elements.ElementIDs", "Elements.FeatureIDs", "Objects.ObjectIDs"}[which], "input": showTriples(ts), "observed": out, "nil": isNil}
+	return c
+}
+
+func wayNodeCase(id int64, ver int) *wire.Case {
+	c := &wire.Case{Class: "waynode"}
+	wn := osm.WayNode{ID: osm.NodeID(id), Version: ver, ChangesetID: 3, Lat: 1, Lon: 2}
+	fid, eid := int64(wn.FeatureID()), int64(wn.ElementID())
+	c.Int(7).Int(id).Int(int64(ver)).Int(fid).Int(eid)
+	if fid != specPack(1, id, 0) || eid != specPack(1, id, ver) {
+		c.OracleFail = "WayNode.FeatureID/ElementID is not the node id packed with the way node's version"
+	}
+	c.Desc = map[string]interface{}{"call": "WayNode.FeatureID/ElementID", "id": id, "version": ver, "feature_id": fid, "element_id": eid}
+	return c
+}
+
+func kindOfName(s string) int {
+	for i, k := range kinds {
+		if string(k) == s {
+			return i
+		}
+	}
+	return -1
+}
+
+func memberCase(typ string, ref int64, ver int) *wire.Case {
+	c := &wire.Case{Class: "member"}
+	m := osm.Member{Type: osm.Type(typ), Ref: ref, Version: ver, Role: "outer", Lat: 1, Lon: 2}
+	fok, fid := tryID(func() int64 { return int64(m.FeatureID()) })
+	eok, eid := tryID(func() int64 { return int64(m.ElementID()) })
+	c.Int(8).Str(typ).Int(ref).Int(int64(ver)).Bool(fok).Int(fid).Bool(eok).Int(eid)
+	k := kindOfName(typ)
+	if isElem(k) {
+		if !fok || !eok || fid != specPack(k, ref, 0) || eid != specPack(k, ref, ver) {
+			c.OracleFail = "Member.FeatureID/ElementID of an element member is not its packed id"
+		}
+	} else if fok || eok {
+		c.OracleFail = "Member.FeatureID/ElementID of a member that is not a node, way or relation returned an id"
+	}
+	c.Desc = map[string]interface{}{"call": "Member.FeatureID/ElementID", "type": typ, "ref": ref, "version": ver,
+		"feature_id": map[string]interface{}{"ok": fok, "id": fid}, "element_id": map[string]interface{}{"ok": eok, "id": eid}}
+	return c
+}
+
+func typeFeatureCase(typ string, ref int64) *wire.Case {
+	c := &wire.Case{Class: "typefid"}
+	id, err := osm.Type(typ).FeatureID(ref)
+	c.Int(9).Str(typ).Int(ref).Bool(err == nil).Int(int64(id))
+	k := kindOfName(typ)
+	if isElem(k) != (err == nil) || (err == nil && int64(id) != specPack(k, ref, 0)) {
+		c.OracleFail = "Type.FeatureID: wrong id or wrong verdict"
+	}
+	c.Desc = map[string]interface{}{"call": "Type.FeatureID", "type": typ, "ref": ref, "ok": err == nil, "id": int64(id)}
+	return c
+}
+
+// oorCase: references and versions OUTSIDE the property's domain (any int64).
+func oorCase(k int, r int64, v int64) *wire.Case {
+	c := &wire.Case{Class: "out-of-range"}
+	fid := featureID(k, r)
+	eid := elementID(k, r, int(v))
+	c.Int(10).Int(int64(k)).Int(r).Int(v).Int(int64(fid)).Int(fid.Ref()).Int(int64(eid)).Int(int64(eid.Version()))
+	c.Desc = map[string]interface{}{"note": "outside the domain of the property (judgement 2 = the formulas of C10/OutOfRange.v)",
+		"kind": string(kinds[k]), "ref": r, "version": v, "feature_id": int64(fid), "feature_ref": fid.Ref(), "feature_type": string(fid.Type()),
+		"element_id": int64(eid), "element_version": eid.Version()}
+	return c
+}
+
 type triple struct {
 	k int
 	r int64
@@ -353,7 +555,7 @@ func main() {
 	a := wire.ParseArgs()
 	rng := wire.Rng(a.Seed)
 	w := wire.NewWriter("C10", a.Seed, a.Tier)
-	w.Rule = "ids: every kind x boundary refs (2^k-1,2^k,2^k+1, k<=40) x boundary versions plus random in-range; sorts: random lists over a boundary subset (all pairs occur); parse: String() of ids, grammar mutations and fixed malformed strings. distinct = distinct token streams; all cases non-trivial except the empty sort."
+	w.Rule = "ids: every kind x boundary refs (2^k-1,2^k,2^k+1, k<=40) x boundary versions plus random in-range; sorts: random lists over a boundary subset (all pairs occur); parse: String() of ids, grammar mutations and fixed malformed strings (oracle from the text alone: shape + denoted value); conversions NodeID/WayID/RelationID of feature and element ids of every element kind x boundary refs; WayNode / Member ids, Type.FeatureID on element, non-element and near-miss type strings; Counts and Elements/Objects id lists on random lists over boundary refs; out-of-range refs/versions (any int64) against the closed formulas. distinct = distinct token streams; all cases non-trivial except the empty sort."
 	refs := boundaryRefs()
 	nrand, nsort, nparse := 300, 150, 1500
 	if a.Tier == "thorough" {
@@ -404,6 +606,66 @@ func main() {
 			}
 			w.Add(convCase(k, r, bversions[i%len(bversions)]))
 		}
+	}
+	// 1c. way nodes, members, Type.FeatureID
+	for i, r := range refs {
+		if a.Tier != "thorough" && i%3 != 0 && r != 1<<40-1 {
+			continue
+		}
+		v := bversions[i%len(bversions)]
+		w.Add(wayNodeCase(r, v))
+		for _, typ := range []string{"node", "way", "relation"} {
+			w.Add(memberCase(typ, r, v))
+		}
+		w.Add(typeFeatureCase([]string{"node", "way", "relation"}[i%3], r))
+	}
+	for _, typ := range []string{"", "changeset", "note", "user", "bounds", "Node", "NODE", "node ", "nodes", "nod", "way/", "relation:", "unknown"} {
+		w.Add(memberCase(typ, 7, 2))
+		w.Add(typeFeatureCase(typ, 7))
+	}
+	// 1d. Counts and id lists
+	nlists := int(40 * a.Scale)
+	if a.Tier == "thorough" {
+		nlists = int(800 * a.Scale)
+	}
+	w.Add(countsCase(0, nil))
+	w.Add(countsCase(1, nil))
+	for which := 0; which < 3; which++ {
+		w.Add(listCase(which, nil))
+	}
+	for i := 0; i < nlists; i++ {
+		n := 1 + rng.Intn(12)
+		ts := make([]triple, n)
+		es := make([]triple, n)
+		for j := range ts {
+			r := refs[rng.Intn(len(refs))]
+			v := bversions[rng.Intn(len(bversions))]
+			ts[j] = triple{rng.Intn(7), r, v}
+			es[j] = triple{1 + rng.Intn(3), r, v}
+		}
+		w.Add(countsCase(i%2, ts))
+		w.Add(countsCase((i+1)%2, es))
+		w.Add(listCase(i%2, es))
+		w.Add(listCase(2, ts))
+	}
+	// 1e. outside the domain: negative refs, refs >= 2^40, versions outside [0, 2^16)
+	oorRefs := []int64{-1, -2, -1 << 39, -1 << 40, -1<<40 - 1, 1 << 40, 1<<40 + 7, 1 << 41, 1 << 44, 1<<44 + 7, 1 << 45, 1 << 46, 1<<47 - 1, 1 << 47, 1 << 48, 1<<48 + 7,
+		1<<62 + 5, math.MaxInt64, math.MinInt64, math.MinInt64 + 1, -1 << 47, -1<<47 - 1, 3<<40 + 9, 0x7f << 40, 0x20<<40 + 1}
+	oorVers := []int64{-1, -65536, 65536, 65537, 1 << 20, 1<<31 - 1, -1 << 31, 1 << 40, math.MaxInt64, math.MinInt64, 0, 65535}
+	for k := 1; k <= 3; k++ {
+		for i, r := range oorRefs {
+			w.Add(oorCase(k, r, oorVers[i%len(oorVers)]))
+		}
+		for i, v := range oorVers {
+			w.Add(oorCase(k, refs[(i*7)%len(refs)], v))
+		}
+	}
+	noor := int(60 * a.Scale)
+	if a.Tier == "thorough" {
+		noor = int(3000 * a.Scale)
+	}
+	for i := 0; i < noor; i++ {
+		w.Add(oorCase(1+rng.Intn(3), int64(rng.Uint64()), int64(rng.Uint64())>>uint(rng.Intn(48))))
 	}
 	// 2. sorts
 	pool := []int64{0, 1, 2, 65535, 65536, 1<<24 - 1, 1 << 24, 1<<39 - 1, 1 << 39, 1<<40 - 1}
@@ -461,7 +723,23 @@ func main() {
 		c3.Class = ""
 		w.Add(c3)
 	}
-	if err := w.Flush(a.Out, "Verif.C10.Check", 4000); err != nil {
+	{
+		canary := func(c *wire.Case, corrupt func(t []uint64)) {
+			corrupt(c.Toks)
+			c.Canary, c.Class, c.OracleFail = 1, "", ""
+			w.Add(c)
+		}
+		last := func(t []uint64) { t[len(t)-1] ^= 2 }
+		// a relation id that "converts" to a node (what the code did before fix 8da90bd)
+		canary(convCase(3, 5, 1), func(t []uint64) { t[4], t[5] = 2, 10 }) // FeatureID.NodeID: ok, 5
+		canary(countsCase(1, []triple{{1, 1, 1}, {2, 1, 1}, {4, 1, 0}}), last)
+		canary(listCase(0, []triple{{1, 1, 1}, {3, 9, 2}}), func(t []uint64) { t[len(t)-2] ^= 2 })
+		canary(wayNodeCase(77, 3), last)
+		canary(memberCase("way", 77, 3), last)
+		canary(typeFeatureCase("changeset", 5), func(t []uint64) { t[len(t)-2] = 2 }) // error -> ok
+		canary(oorCase(1, -1, 70000), last)
+	}
+	if err := w.Flush(a.Out, "Verif.C10.Check", 1200); err != nil {
 		fmt.Fprintln(os.Stderr, err)
 		os.Exit(1)
 	}
